@@ -1,6 +1,7 @@
 package stream
 
 import (
+	"bytes"
 	"encoding/binary"
 	"fmt"
 	"io"
@@ -9,12 +10,30 @@ import (
 	"github.com/iotaledger/hive.go/serializer/v2"
 )
 
+// maxPreallocatedReadSize is the largest size that ReadBytes allocates before the data was read.
+const maxPreallocatedReadSize = 4096
+
 // Read reads a generic basic type from the reader.
 func Read[T allowedGenericTypes](reader io.Reader) (result T, err error) {
 	return result, binary.Read(reader, binary.LittleEndian, &result)
 }
 
 func ReadBytes(reader io.Reader, length int) ([]byte, error) {
+	if length < 0 {
+		return nil, ierrors.Errorf("failed to read serialized bytes: invalid size (%d)", length)
+	}
+
+	// sizes usually come from a length prefix in the data: do not trust large ones with an allocation up front, but
+	// let the buffer grow with the data that is actually delivered by the reader
+	if length > maxPreallocatedReadSize {
+		var buffer bytes.Buffer
+		if nBytes, err := io.CopyN(&buffer, reader, int64(length)); err != nil {
+			return nil, ierrors.Wrapf(err, "failed to read serialized bytes: read bytes (%d) != size (%d)", nBytes, length)
+		}
+
+		return buffer.Bytes(), nil
+	}
+
 	readBytes := make([]byte, length)
 
 	// an io.Reader may return less than requested without an error: read until the buffer is full
